@@ -197,6 +197,7 @@ class Walker(object):
         self.trace_calls = False     # record ('enter', path) markers
         self.record_stores = None    # callable(state, frame, loc, value, span) for mod-ref rules
         self.unroll_bound = 64
+        self.max_branches = 600
 
     # ------------------------------------------------------------ symbolic values
     def symval(self, name, ty):
@@ -676,6 +677,9 @@ class Walker(object):
                 raise SplitEnum(obj, proj, v)
             if isinstance(v, Opaque):
                 return tm.fresh_sym("discr(%s)" % v.name, bits)
+            if v is UNINIT:
+                # library MIR (inlined `?`) reads the discriminant of a moved-out residual only to `assume` it
+                return tm.fresh_sym("discr(uninit)", bits)
             raise WalkError("discriminant of %r" % (v,))
         if k == "agg":
             kind = rv[1]
@@ -1078,6 +1082,9 @@ class Walker(object):
             self.stats["steps"] += 1
             if st.steps > self.max_steps:
                 raise Budget("max_steps")
+            if len(st.pc) > self.max_branches:
+                return self.finish(st, "cut", detail="more than %d branch decisions on one path (unbounded loop over opaque results?) at %s bb%d" % (
+                    self.max_branches, fr.fn.path, fr.block))
             try:
                 for s in blk["s"]:
                     self.exec_stmt(st, fr, s)
